@@ -195,6 +195,11 @@ func sendPacket(l *NDNLPLinkService, out dispatch.OutPkt) {
 		effectiveMtu -= congestionMarkOverhead
 	}
 
+	if effectiveMtu <= 0 {
+		core.LogWarn(l, "MTU too small to carry any payload - DROP")
+		return
+	}
+
 	// Fragmentation
 	var fragments []*spec.LpPacket
 	if len(wire) > effectiveMtu {
